@@ -87,9 +87,6 @@ Proof.
   cbn [remove_at shape_of map]. f_equal. apply IH.
 Qed.
 
-Lemma nthN_shape_of dims k : nthN (shape_of dims) k 0 = d_size (nthN dims k (0, 0)).
-Proof. unfold nthN, shape_of. change 0 with (d_size (0, 0)) at 1. apply map_nth. Qed.
-
 Theorem remove_axis_denotes {A} (s : list A) v i v' t :
   denote s v = Some t -> remove_axis v i = Ok v' -> denote s v' = ref_remove_axis t i.
 Proof.
